@@ -47,3 +47,11 @@ Proof.
   - apply Qeq_bool_iff in E. contradiction.
   - field. exact H.
 Qed.
+
+(* C11 for the bootstrap estimator: numerator and denominator of exactly the groups of x change, by x's own margin / two-party votes *)
+Theorem boot_delta a x rows g :
+  z_total a (rows ++ [x]) g == z_total a rows g + (if okey_is (bkf a x) g then b_predt x else 0) /\
+  yz_total a (rows ++ [x]) g == yz_total a rows g + (if okey_is (bkf a x) g then b_predm x else 0).
+Proof.
+  unfold z_total, yz_total. rewrite !qsum_where_app. simpl. split; ring.
+Qed.
